@@ -33,6 +33,10 @@ import (
 )
 
 func main() {
+	if os.Getenv("C39_CHILD") == "race" {
+		raceChild()
+		return
+	}
 	if os.Getenv("C39_CHILD") != "" {
 		child()
 		return
@@ -411,6 +415,7 @@ type vcase struct {
 	Used     int  `json:"used"`     // modules imported
 	Errors   int  `json:"errors"`   // evaluations/checks that returned an unexpected error
 	Mixed    bool `json:"mixed"`    // run had concurrent use + Check
+	Races    int  `json:"races"`    // data-race reports of the Go race detector naming elvish code (race child only)
 }
 
 func freeRunning(c *lib.Ctx, dir string) error {
@@ -465,6 +470,9 @@ func freeRunning(c *lib.Ctx, dir string) error {
 			}
 			c.Reject(key, fmt.Sprintf("free-running run %+v rejected by JudgeShared: %v", v, b.Info), v)
 		}
+	}
+	if err := raceObserver(c, dir); err != nil {
+		return err
 	}
 	c.Assume("TLC trusted; goroutines are identified by the id in runtime.Stack; `B did not reach its access within 2 s while A is parked` is read as exclusion (a slow machine can only hide a finding, never create one); module re-evaluation and visibility of partially evaluated modules are judged against the statement's `results that some sequential order could produce`")
 	return nil
